@@ -72,6 +72,26 @@ var c14Values = map[string][2]c14Val{
 	"AutoHarvest":                     {{"0", "no", "false"}, {"1", "yes", "true"}},
 }
 
+// c14ValOf: value 0/1 of the table; value 2 = the empty text (text keys only: "Key=" on the line, '' in the file)
+func c14ValOf(k string, idx int) c14Val {
+	if idx == 2 {
+		return c14Val{"''", "", ""}
+	}
+	return c14Values[k][idx]
+}
+
+// c14TextKeys: keys of text kind (an empty value is a value)
+func c14TextKeys() []string {
+	t := reflect.TypeOf(hermes.Config{})
+	var ks []string
+	for i := 0; i < t.NumField(); i++ {
+		if t.Field(i).Type.Kind() == reflect.String && t.Field(i).Name != "EndDate" {
+			ks = append(ks, t.Field(i).Name)
+		}
+	}
+	return ks
+}
+
 func c14Keys() []string {
 	t := reflect.TypeOf(hermes.Config{})
 	var ks []string
@@ -118,6 +138,17 @@ func c14Specs(tier string, seed int) []c14Spec {
 		out = append(out, sp)
 	}
 	out = append(out, c14Spec{Kind: "single", Key: "(none)", Cases: []c14Case{{}, {NoFile: true}, {Order: c14Unknown}}})
+	// text keys: the empty text is a value too (on the line it overrides the file, in the file it overrides the default)
+	for _, k := range c14TextKeys() {
+		sp := c14Spec{Kind: "single", Key: k + " (empty text)"}
+		sp.Cases = append(sp.Cases,
+			c14Case{Line: map[string]int{k: 2}},
+			c14Case{File: map[string]int{k: 0}, Line: map[string]int{k: 2}},
+			c14Case{File: map[string]int{k: 2}},
+			c14Case{File: map[string]int{k: 2}, Line: map[string]int{k: 1}},
+			c14Case{Line: map[string]int{k: 2}, NoFile: true})
+		out = append(out, sp)
+	}
 	// (2) all unordered pairs of keys x 9 source combinations (absent/file/line each)
 	for i := 0; i < len(keys); i++ {
 		sp := c14Spec{Kind: "pairs", Key: keys[i]}
@@ -243,10 +274,10 @@ func c14Expected(cs c14Case, root string) map[string]string {
 	for _, k := range c14Keys() {
 		exp[k] = fmt.Sprintf("%v", def.FieldByName(k).Interface())
 		if v, ok := cs.File[k]; ok && !cs.NoFile {
-			exp[k] = c14Values[k][v].Canon
+			exp[k] = c14ValOf(k, v).Canon
 		}
 		if v, ok := cs.Line[k]; ok {
-			exp[k] = c14Values[k][v].Canon
+			exp[k] = c14ValOf(k, v).Canon
 		}
 	}
 	if exp["WeatherFolder"] == "" {
@@ -284,13 +315,13 @@ func c14WriteConfig(root, id string, cs c14Case) {
 	var b strings.Builder
 	b.WriteString("# generated\n")
 	for _, k := range ks {
-		fmt.Fprintf(&b, "%s: %s\n", k, c14Values[k][cs.File[k]].File)
+		fmt.Fprintf(&b, "%s: %s\n", k, c14ValOf(k, cs.File[k]).File)
 	}
 	os.WriteFile(cf, []byte(b.String()), 0o644)
 }
 
 func c14Args(cs c14Case) []string {
-	arg := func(k string) string { return k + "=" + c14Values[k][cs.Line[k]].Line }
+	arg := func(k string) string { return k + "=" + c14ValOf(k, cs.Line[k]).Line }
 	var a []string
 	if cs.Order != nil {
 		used := map[string]bool{}
